@@ -19,3 +19,8 @@ open IrVerif.LinkedSet
 #print axioms C11_spec_rest_remove
 #print axioms C11_spec_rest_insert
 #print axioms C11_spec_resume
+#print axioms C11_rec_start
+#print axioms C11_rec_only_members
+#print axioms C11_rec_terminates
+#print axioms C11_rec_preorder
+#print axioms C11_rec_refine_step
